@@ -143,6 +143,13 @@ pub fn sweep(args: &[String]) -> i32 {
                 }
                 // every extension of the prefix up to maxlen (depth-first, odometer)
                 let prefix = &items[i];
+                {
+                    // progress mark at the start of every work item, so that a hang inside the very first item is seen too
+                    let mut c = current[th].lock().unwrap();
+                    c.0.clear();
+                    c.0.push_str(prefix);
+                    c.1 += 1;
+                }
                 check(prefix, &mut count);
                 let extra = maxlen.saturating_sub(2);
                 let mut buf = String::new();
@@ -190,7 +197,7 @@ pub fn sweep(args: &[String]) -> i32 {
             let c = current[th].lock().unwrap();
             if c.1 != last[th].0 {
                 last[th] = (c.1, std::time::Instant::now());
-            } else if c.1 > 0 && last[th].1.elapsed().as_secs() > 60 && stuck.is_none() && !handles[th].is_finished() {
+            } else if last[th].1.elapsed().as_secs() > 60 && stuck.is_none() && !handles[th].is_finished() {
                 stuck = Some(c.0.clone());
             }
         }
@@ -209,7 +216,7 @@ pub fn sweep(args: &[String]) -> i32 {
         out.line(&json!({"kind": "flagged", "text": s, "what": w}));
     }
     if let Some(s) = &stuck {
-        out.line(&json!({"kind": "stuck", "text": s, "what": "no progress for 60 s near this string: the lexer or parser does not terminate"}));
+        out.line(&json!({"kind": "stuck", "text": s, "what": "no progress for 60 s among the strings that start like this one: the lexer or parser does not terminate"}));
     }
     let g = shapes.lock().unwrap();
     for s in g.1.iter() {
